@@ -680,7 +680,7 @@ func ruleVarint(c *Ctx, r *RuleResult, encName, decName string) {
 func init() {
 	register(&propDef{
 		id:          "C14",
-		explanation: "Decides that encoder and decoder agree on the kind of every field on the wire: GRAMMAR reads the SSA control-flow graphs of GobEncode and GobDecode as NFAs over the tokens U (a varint: append of an encodeUint64 result / call of decodeUint64) and B (one raw byte: append of a single byte / ReadByte) and checks L(GobEncode) ⊆ L(GobDecode) by the subset construction, reporting the first token on which the product automaton is stuck; VARINT checks nine constant relations between encodeUint64 and decodeUint64 (single-byte threshold, prefix base, payload bound, total length, byte order, shift widths). Does not decide equality of words/ranks after a round trip.",
+		explanation: "Decides that encoder and decoder agree on the kind of every field on the wire: GRAMMAR reads the SSA control-flow graphs of GobEncode and GobDecode as NFAs over the tokens U (a varint: append of an encodeUint64 result / call of decodeUint64) and B (one raw byte: append of a single byte / ReadByte) and checks L(GobEncode) ⊆ L(GobDecode) by the subset construction, reporting the first token on which the product automaton is stuck; VARINT checks nine constant relations between encodeUint64 and decodeUint64 (single-byte threshold, prefix base, payload bound, total length, byte order, shift widths); OVERWRITE checks that GobDecode assigns every field of every node on every iteration of a loop, so a reused receiver keeps no stale state. Does not decide equality of words/ranks after a round trip.",
 		notDecided:  []string{"that the decoded automaton has the same words, ranks, node count and search results", "that re-encoding gives the same bytes", "that element counts on the wire match loop counts (regular approximation ignores counts)"},
 		assumptions: []string{"every byte of the output is appended through the recognised primitives (an unrecognised append to the output chain is 'undecided' and fails)"},
 		run: func(c *Ctx, tier string) []*RuleResult {
@@ -688,7 +688,9 @@ func init() {
 			ruleGrammar(c, g, "(*dawg.Dawg).GobEncode", "(*dawg.Dawg).GobDecode", "dawg.encodeUint64", "dawg.decodeUint64")
 			v := &RuleResult{Rule: "VARINT", Doc: "encodeUint64 / decodeUint64 agree on threshold, prefix base, lengths, byte order", MinInst: 9}
 			ruleVarint(c, v, "dawg.encodeUint64", "dawg.decodeUint64")
-			return []*RuleResult{g, v}
+			ow := &RuleResult{Rule: "OVERWRITE", Doc: "GobDecode assigns every field of every node on every iteration of a loop (or resets the receiver as a whole): no stale state of a reused receiver survives", MinInst: 5}
+			ruleOverwrite(c, ow, "(*dawg.Dawg).GobDecode", "dawg", "Dawg")
+			return []*RuleResult{g, v, ow}
 		},
 		controls: func(ctl *Ctx) []*RuleResult {
 			g := &RuleResult{Rule: "GRAMMAR"}
@@ -700,7 +702,107 @@ func init() {
 				g.Findings = append(g.Findings, f)
 			}
 			g.Undecided = append(g.Undecided, g2.Undecided...)
-			return []*RuleResult{g}
+			ow := &RuleResult{Rule: "OVERWRITE"}
+			ruleOverwrite(ctl, ow, "(*wirectl.N).BadDecode", "wirectl", "N")
+			ow2 := &RuleResult{Rule: "OVERWRITE"}
+			ruleOverwrite(ctl, ow2, "(*wirectl.N).GoodDecode", "wirectl", "N")
+			for _, f := range ow2.Findings {
+				f.Key += " (Good)"
+				ow.Findings = append(ow.Findings, f)
+			}
+			return []*RuleResult{g, ow}
 		},
 	})
+}
+
+// ruleOverwrite: GobDecode replaces the receiver's contents, so every field of every node it
+// fills must be assigned on every iteration of some loop (or the receiver must be reset as a
+// whole first): a field assigned only on some paths keeps stale state of a reused receiver.
+func ruleOverwrite(c *Ctx, r *RuleResult, fnName, pkgRel, typ string) {
+	fn := c.Fn(fnName)
+	st := structOf(c, pkgRel, typ)
+	T := c.Pkg(pkgRel).Types.Scope().Lookup(typ).Type()
+	E := c.Eff()
+	f := E.fas[fn]
+	isNode := func(v ssa.Value) bool {
+		for l := range f.P(v) {
+			t := l.o.typ
+			if t == nil {
+				continue
+			}
+			if p, ok := t.Underlying().(*types.Pointer); ok {
+				t = p.Elem()
+			}
+			if types.Identical(t, T) {
+				return true
+			}
+		}
+		return false
+	}
+	// whole-struct reset of the receiver in the entry region
+	reset := false
+	for _, b := range fn.Blocks {
+		for _, in := range b.Instrs {
+			if s, ok := in.(*ssa.Store); ok && s.Addr == ssa.Value(fn.Params[0]) && b.Dominates(fn.Blocks[len(fn.Blocks)-1]) {
+				reset = true
+			}
+		}
+	}
+	loops := loopsOf(fn)
+	for i := 0; i < st.NumFields(); i++ {
+		name := st.Field(i).Name()
+		writers := map[*ssa.BasicBlock]bool{}
+		n := 0
+		for _, b := range fn.Blocks {
+			for _, in := range b.Instrs {
+				s, ok := in.(*ssa.Store)
+				if !ok {
+					continue
+				}
+				fa, ok := s.Addr.(*ssa.FieldAddr)
+				if !ok || !isNode(fa.X) {
+					continue
+				}
+				fst := fa.X.Type().Underlying().(*types.Pointer).Elem().Underlying().(*types.Struct)
+				if fst.Field(fa.Field).Name() == name {
+					writers[b] = true
+					n++
+				}
+			}
+		}
+		r.inst("%s: field %s.%s assigned on every iteration of a loop (%d stores)", fnName, typ, name, n)
+		must := false
+		for h, body := range loops {
+			// with writer blocks removed, can the header reach one of its back-edge sources?
+			if writers[h] {
+				must = true
+				continue
+			}
+			reach := reachableBlocks(h, func(b *ssa.BasicBlock) bool { return writers[b] || !body[b] })
+			esc := false
+			for _, p := range h.Preds {
+				if body[p] && reach[p] {
+					esc = true
+				}
+			}
+			hasWriterInside := false
+			for b := range writers {
+				if body[b] {
+					hasWriterInside = true
+				}
+			}
+			if hasWriterInside && !esc {
+				must = true
+			}
+		}
+		ok := must || (reset && n > 0) || (reset && n == 0)
+		r.oblig(ok)
+		if !ok {
+			if n == 0 {
+				r.find(fnName+":field "+name+" never assigned", c.pos(fn.Pos()), "%s never assigns %s.%s: a decoded node keeps whatever a reused receiver held", fnName, typ, name)
+			} else {
+				r.find(fnName+":field "+name+" assigned only on some paths", c.pos(fn.Pos()), "%s assigns %s.%s only on some paths through its node loop: decoding into a receiver that already holds an automaton keeps the stale value (e.g. a root that stays final)", fnName, typ, name)
+			}
+		}
+	}
 }
